@@ -125,6 +125,17 @@ def class_worker(part, codes):
                 and np.abs(np.asarray(bi.apply(pts4))[:, :3] - b.apply(pts3)).max() < 1e-14 and np.abs(np.asarray(bi.seitz_matrix) - np.asarray(b.seitz_matrix)).max() < 1e-14
         except Exception:
             ok_i = False
+        # pairwise: integer-typed rotation TOGETHER WITH integer-typed points (lattice points): the image is R x + t, fractional where t is
+        try:
+            ipts = np.array([[1, 2, 3], [0, -1, 4], [0, 0, 0]])
+            want_i = ipts @ np.array(op[0], dtype=float).reshape(3, 3).T + tm
+            for oname_, o_ in (("integer-rotation", bi), ("float-rotation", b), ("code-built", a)):
+                for pname_, P_ in (("int64 points", ipts), ("int32 points", ipts.astype(np.int32)), ("int64 homogeneous points", np.c_[ipts, np.ones(3, dtype=np.int64)])):
+                    g_ = np.asarray(o_.apply(P_), dtype=float)[:, :3]
+                    if not (np.abs(g_ - want_i).max() <= 1e-12):
+                        part.fail("class-int-points:%s" % oname_, "%s operation %s applied to %s gives %s, expected %s" % (oname_, want, pname_, g_.tolist(), want_i.tolist()), case)
+        except Exception as e:
+            part.fail("class-int-points-raise", "applying operation %s to integer-typed points raised %r" % (want, e), case)
         if not ok_i:
             part.fail("class-int-matrix:%d" % code, "operation %s built from an integer-typed rotation matrix differs from the float-built one (code/str/apply/seitz)" % want, case)
         # homogeneous points with a weight other than one (w = 0 are directions: no translation; w = 2 doubles it): the (N,4) form is
